@@ -61,6 +61,7 @@ func C13(ctx *core.Ctx, r *core.Report) {
 	lexerCycleAdvances(ctx, r, "xpath", e.reach, c13LexTriage, 3)
 	c13KeyArity(ctx, r)
 	c13EqualFormatFirst(ctx, r)
+	fixedBuffer(ctx, r, e.reach, func(f *ssa.Function) bool { return c13OutOfScope(f) }, c13BufferTriage, 1)
 	parallelIndex(ctx, r, e.reach, func(f *ssa.Function) bool { return c13OutOfScope(f) }, c13ParallelTriage, 5)
 }
 
@@ -166,4 +167,8 @@ func c13EqualFormatFirst(ctx *core.Ctx, r *core.Report) {
 
 var c13LexTriage = map[string]string{
 	"xpath.lexer.nextToken/loop1": "the driver loop: each turn runs lexBegin, which returns itself only after an accept…() succeeded (a token was emitted and is returned on the next turn) and nil otherwise (the next turn returns the end token)",
+}
+
+var c13BufferTriage = map[string]string{
+	"xpath.lexer.pushToken/tokens[head]": "the xpath lexer runs a state only when the ring is empty (nextToken) and one turn of lexBegin emits at most two tokens (an operator and its operand), so at most two of the 64 slots are ever pending",
 }
